@@ -15,11 +15,11 @@ EXPLANATION = (
     "plaintext helper (the body calling SealedMessage::decrypt) returns Ok only with a successful decryption result of one of the sealed "
     "messages under the caller's key, tries every message, and otherwise returns Err(UnknownRecipient). C10.4: seal = "
     "encrypt_to_recipient(sign(self, sender), recipient); unseal = verify(decrypt_to_recipient(self, recipient)?, sender); the wrap-and-"
-    "encrypt forms wrap before / unwrap after. Adding a recipient only adds an assertion (C04), digest preservation is C02/C08. Does not "
+    "encrypt forms wrap before / unwrap after. Adding a recipient only adds an assertion (C04), digest preservation is C02/C08. C10.8: the decrypt_subject instances of C08 (digest guards, node rebuilt through the node constructor, decrypt = unwrap(decrypt_subject)) re-evaluated here. Does not "
     "decide KEM/AEAD security ('any other private key gets an error').")
 TRUSTED = ['SealedMessage::new_opt seals its plaintext to the given public key; SealedMessage::decrypt opens only with the matching private key',
            'SymmetricKey::new() draws a fresh random key']
-FLOORS = {'C10.1': 3, 'C10.2': 2, 'C10.3': 3, 'C10.4': 4}
+FLOORS = {'C10.1': 3, 'C10.2': 2, 'C10.3': 3, 'C10.4': 4, 'C10.8': 5}
 P1, P2, P3, P4 = [('param', i) for i in range(1, 5)]
 
 
@@ -273,3 +273,13 @@ def check(ctx):
     # C10.7 error discipline: no error of a fallible call is turned into "absent / false / default" outside the reviewed table
     from .. import errflow
     errflow.check(ctx, 'C10.7', ['src/extension/recipient.rs', 'src/seal.rs', 'src/extension/encrypt.rs'], 'recipient / encryption family')
+    # C10.8: a recipient opens the envelope through decrypt_subject with the recovered content key, so "every listed recipient
+    # recovers an envelope identical to the original" rests on the symmetric round trip: the decrypt_subject instances of C08
+    # (digest guards C08.2, value wiring C08.3 - the node is rebuilt over the decrypted subject and the node's own assertions through
+    # the node constructor) and the wrappers C08.5, re-evaluated under this property
+    from . import C08
+    from .C07 import Relabel
+    try:
+        C08.check(Relabel(ctx, 'C10.8', ['C08.2', 'C08.3', 'C08.5']))
+    except Exception as e:
+        ctx.fail('C10.8', '-', 'symmetric round-trip obligations (C08.2/3/5) could not be evaluated: %r' % e, key='C10.8|c08')
